@@ -277,8 +277,17 @@ def client_unit(M):
         c.set_salt(mk(be(saltv, 16)))
         c.set_server_public_key(be(Bv, 384))
         ref = reference(sym, a, Bv, saltv, CODE)
+        # the public API in the orders a caller may use it: the premaster secret inspected first (and again later), or the
+        # accessory's proof checked before the client's own proof was ever asked for
+        order = ex.choice("call_order", ["K-first", "S-first", "verify-first"])
+        if order == "S-first":
+            ex.require(eq(sym, c.get_shared_secret_bytes(), ref["S"]), "premaster secret S = PAD((B - k g^x)^(a + u x))")
+        if order == "verify-first":
+            ex.require(bool(c.verify_servers_proof_bytes(ref["M2"])) is True, "the correct accessory proof is accepted, also before the client's own proof was requested")
         ex.require(eq(sym, c.get_public_key_bytes(), ref["A"]), "public value A is g^a mod N padded to 384 bytes")
         ex.require(eq(sym, c.get_session_key_bytes(), ref["K"]), "session key K = H(PAD(S)), S = (B - k g^x)^(a + u x), u = H(PAD(A)|PAD(B)), x = H(s|H(I:P))")
+        if order == "S-first":
+            ex.require(eq(sym, c.get_shared_secret_bytes(), ref["S"]), "the premaster secret is the same when it is derived again")
         ex.require(eq(sym, c.get_proof_bytes(), ref["M1"]), "proof M1 = H(H(N) xor H(g) | H(I) | s | PAD(A) | PAD(B) | K)")
         ex.require(slen(c.get_proof_bytes()) == 64 and slen(c.get_session_key_bytes()) == 64 and slen(c.get_public_key_bytes()) == 384,
                    "A, M1 and K have their full lengths (leading zero bytes kept)")
